@@ -267,6 +267,78 @@ def run_shadowing(ctx):
     return n
 
 
+EMPT_DOCS = [
+    {"l": [1, 2], "e": [], "m": {"k": 1}, "em": {}, "s": "ab", "es": "", "lm": [{"tags": [], "k": 1}, {"tags": [1], "k": []}, {"k": ""}], "ee": [[], {}, ""]},
+    {"l": [], "e": [[]], "m": {}, "em": {"k": {}}, "s": "", "es": "x", "lm": [], "ee": []},
+]
+EMPT_QUERIES = ['l', 'e', 'm', 'em', 's', 'es', 'lm[*].tags', 'lm[*].k', 'zz', 'ee', 'lm']
+EMPT_SUFFIXES = ['[*]', '.*', '[0]', '[*].k', '.k', '[ k exists ]', '[*][ k exists ]']
+EMPT_OPS = ['empty', '!empty', 'exists', '!exists', 'is_list', '== []']
+
+
+def consistent_suffix(suf):
+    """the in-place spelling of what the implementation does with `%v<suf>`: a `[*]` directly after a variable (written, or inserted
+    by the parser in front of a filter) ranges over the VALUES of the variable, not over the elements of a list / struct value"""
+    if suf.startswith('[*]'):
+        rest = suf[3:]
+        return None if rest.startswith('[ ') else rest
+    if suf.startswith('[ '):
+        return None     # a filter on each value: on the elements of a list value, on a struct value itself - no single in-place spelling
+    return suf
+
+
+def run_emptiness(ctx):
+    """directed: a query bound to a variable and continued (`%v[*]`, `%v.*`, `%v[0]`, `%v.k`, filters) under the unary tests that look at
+    emptiness and existence, against the same query written in place, at file and at rule level. Only the bare `%v empty` is the
+    documented exception. Where the strict reading (`Q<suffix>` in place) and the implementation's reading of a `[*]` after a variable
+    differ, both are compared: the second must hold, a difference with the first is the recorded finding."""
+    combos = [(suf, op, some) for suf in EMPT_SUFFIXES for op in EMPT_OPS for some in ('', 'some ')]
+    progs, meta = [], []
+    for d in EMPT_DOCS:
+        for q in EMPT_QUERIES:
+            for level in ('file', 'rule'):
+                strict = ''.join('rule r%d {\n  %s%s%s %s\n}\n' % (i, some, q, suf, op) for i, (suf, op, some) in enumerate(combos))
+                cons = ''.join('rule r%d {\n  %s%s%s %s\n}\n' % (i, some, q, consistent_suffix(suf) if consistent_suffix(suf) is not None else suf, op) for i, (suf, op, some) in enumerate(combos))
+                if level == 'file':
+                    viavar = 'let v = %s\n' % q + ''.join('rule r%d {\n  %s%%v%s %s\n}\n' % (i, some, suf, op) for i, (suf, op, some) in enumerate(combos))
+                else:
+                    viavar = ''.join('rule r%d {\n  let v = %s\n  %s%%v%s %s\n}\n' % (i, q, some, suf, op) for i, (suf, op, some) in enumerate(combos))
+                for text in (viavar, strict, cons):
+                    progs.append((text, json.dumps(d)))
+                meta.append((q, level, viavar, strict, cons, d))
+    outs, raw = e2e.pair_outcomes(progs, ctx.wd, 'c15empt', loader='cli')
+    n = 0
+    for j, (q, level, a, b, c, d) in enumerate(meta):
+        (oa, sa), (ob, sb), (oc, sc) = (statuses(outs[3 * j + t], raw[3 * j + t]) for t in range(3))
+        ok = ('PASS', 'FAIL', 'SKIP')
+        if (oa in ok) != (oc in ok):
+            ctx.failing('%s bound to a %s-level variable: %s, written in place: %s' % (q, level, oa, oc),
+                        {'class': 'abstraction', 'kind': 'continued variable under an emptiness test', 'rules': a, 'variant': c, 'data': json.dumps(d)}, found=True)
+            continue
+        if (oa in ok) != (ob in ok):
+            ctx.failing('%s bound to a %s-level variable: %s, written in place with [*] / filters kept: %s' % (q, level, oa, ob),
+                        {'class': 'star-after-variable', 'kind': 'a [*] (or filter) directly after a variable ranges over the values of the variable',
+                         'rules': a, 'variant': b, 'data': json.dumps(d)}, found=True)
+        if oa not in ok:
+            continue      # an evaluation error in one rule hides the others
+        if ob not in ok:
+            sb = sa       # nothing to compare with on the strict side
+        for k, (suf, op, some) in enumerate(combos):
+            name = 'r%d' % k
+            n += 1
+            va, vb, vc = sorted(sa.get(name) or []), sorted(sb.get(name) or []), sorted(sc.get(name) or [])
+            if consistent_suffix(suf) is not None and va != vc:
+                ctx.failing('`%s%%v%s %s` with v = %s (%s level) is %s, `%s%s%s %s` in place is %s' % (some, suf, op, q, level, va, some, q, consistent_suffix(suf), op, vc),
+                            {'class': 'abstraction', 'kind': 'continued variable under an emptiness test', 'rules': a, 'variant': c, 'data': json.dumps(d), 'rule': name}, found=True)
+            elif va != vb:
+                ctx.failing('`%s%%v%s %s` with v = %s (%s level) is %s, `%s%s%s %s` in place is %s' % (some, suf, op, q, level, va, some, q, suf, op, vb),
+                            {'class': 'star-after-variable', 'kind': 'a [*] (or filter) directly after a variable ranges over the values of the variable',
+                             'rules': a, 'variant': b, 'data': json.dumps(d), 'rule': name}, found=True)
+    ctx.coverage['emptiness_scenarios'] = n
+    ctx.coverage['evaluations'] += len(progs)
+    return n
+
+
 def run(ctx):
     ctx.build()
     pr = ctx.proofs('C15')
@@ -297,6 +369,7 @@ def run(ctx):
     ctx.coverage['correspondence_verdicts'] = stats
     ctx.coverage['memo_free_verdicts'] = pstats
     n += run_shadowing(ctx)
+    n += run_emptiness(ctx)
     ctx.coverage['distinct_nontrivial'] = n
     ctx.coverage['rule'] = ('variant = generated program with one abstraction step (rhs literal/query -> %v at block, rule or file level; lhs query -> %v; unused variables at every '
                             'level incl. erroring ones; literal variables inlined; parameterised calls replaced by their body) x its document; counted when both evaluate')
